@@ -69,11 +69,21 @@ class Ctx:
 
     # -- reporting helpers used by the rules
 
+    def _add(self, inst: Instance):
+        # the same verdict about the same construct reached along several paths is one instance
+        k = (inst.rule, inst.site, inst.construct, inst.ok, inst.reason)
+        seen = self.__dict__.setdefault("_seen", {})
+        if k in seen:
+            seen[k].facts["paths"] = seen[k].facts.get("paths", 1) + 1
+            return
+        seen[k] = inst
+        self.instances.append(inst)
+
     def ok(self, site, construct, reason="", where="", **facts):
-        self.instances.append(Instance(self.current_rule, site, construct, True, reason, facts, where=where))
+        self._add(Instance(self.current_rule, site, construct, True, reason, facts, where=where))
 
     def bad(self, site, construct, reason, where="", **facts):
-        self.instances.append(Instance(self.current_rule, site, construct, False, reason, facts, where=where))
+        self._add(Instance(self.current_rule, site, construct, False, reason, facts, where=where))
 
     def check(self, cond, site, construct, reason_bad, reason_ok="", where="", **facts):
         if cond:
